@@ -83,6 +83,7 @@ type restartOpts struct {
 	AdoptFailNext    []byte                      // Persistence operations which fail once during AdoptSession
 	PreAdoptLimits   int                         // a first AdoptSession with limits this low (see sim.Options)
 	PreAdoptFailLoad int                         // a first AdoptSession whose n-th Load fails (see sim.Options)
+	AdoptFailNth     int                         // the AdoptFailNext operations fail at their n-th occurrence
 	StoreFlavour     string                      // "" = drawn by newH
 	FSMutate         func(dir string)            // stray entries in the directory of a filesystem-flavoured store
 }
@@ -120,7 +121,7 @@ func (h *H) restart(o restartOpts) (*H, []Pending) {
 	h.WithLock(func() { deliveries = append(deliveries, h.Broker.Deliveries...) })
 	b := refmqtt.NewFromSnapshot(snap, deliveries)
 
-	n := newH(h.rt, h.prop, sim.Options{Config: o.Config, Adopt: true, Store: store, Broker: b, AdoptFailNext: o.AdoptFailNext, StoreFlavour: o.StoreFlavour, FSMutate: o.FSMutate, PreAdoptLimits: o.PreAdoptLimits, PreAdoptFailLoad: o.PreAdoptFailLoad})
+	n := newH(h.rt, h.prop, sim.Options{Config: o.Config, Adopt: true, Store: store, Broker: b, AdoptFailNext: o.AdoptFailNext, StoreFlavour: o.StoreFlavour, FSMutate: o.FSMutate, PreAdoptLimits: o.PreAdoptLimits, PreAdoptFailLoad: o.PreAdoptFailLoad, AdoptFailNth: o.AdoptFailNth})
 	n.genBase = append(append([]*sim.World(nil), h.genBase...), h.World)
 	n.nTopic = h.nTopic
 	n.gen = h.gen + 1
